@@ -193,6 +193,17 @@ def _case(seed: int) -> Dict[str, Any]:
                         "ts": s["ts"], "dur": max(1, s["dur"]), "args": {"correlation": s["args"]["correlation"], "stream": -1}})
         if seed % 4 == 0:
             evs.append({"ph": "X", "cat": "cuda_sync", "name": "Event Sync", "pid": 0, "tid": 0, "ts": evs[0]["ts"] + 3, "dur": 2, "args": {"stream": -1}})
+    if seed % 6 == 5:
+        # a capture without device activities (host-side tracing only): every event on a device stream is absent from the file, the host calls keep their
+        # correlation ids (-> 0: counterpart absent) and the sync records on stream -1 keep theirs (-> still linked to their calls)
+        for rk in per_rank:
+            def on_device(e):
+                a = e.get("args")
+                try:
+                    return isinstance(a, dict) and int(a.get("stream", -1)) >= 0
+                except (TypeError, ValueError):
+                    return False
+            per_rank[rk] = [e for e in per_rank[rk] if not on_device(e)]
     fails = []
     n = 0
     with rt.trace_dir(per_rank, gz=bool(seed % 2)) as d:
@@ -277,7 +288,7 @@ def bounded(ctx):
     n = 60 if not ctx.thorough else 800
     res = rt.pmap(_case, [ctx.seed * 7919 + i for i in range(n)], ctx.procs) + rt.pmap(_loaded_case, list(range(6 if not ctx.thorough else 60)), ctx.procs)
     return rt.summarise(res, f"{PROP}.bounded", f"{n} generated traces (1-2 ranks, missing launches/kernels, orphan kernels, sync records on stream -1 with and without "
-                        "correlation id, .json/.json.gz) parsed through Trace.parse_traces; oracle pairs events by correlation id from the JSON; plus fully loaded (trimmed) traces with a "
+                        "correlation id, every sixth file without any device activity, .json/.json.gz) parsed through Trace.parse_traces; oracle pairs events by correlation id from the JSON; plus fully loaded (trimmed) traces with a "
                         "synchronisation whose call and device-side record straddle the start of the dropped step: links stay mutual and closed")
 
 
